@@ -148,6 +148,18 @@ class DefUse:
             if 1 <= local <= self.body.arg_count and not self.whole_defs(local):
                 return ("arg", local, proj)
             ds = self.whole_defs(local)
+            if len(ds) > 1 and all(d[0] == "stmt" and d[3].get("inline_ret") for d in ds):
+                ds = ds[:1]  # the copies `dest = move ret` of one inlined callee (one per split return block)
+            if len(ds) > 1 and proj and proj[0]["k"] == "downcast":
+                # `(x as Some).0` : only the definitions that build that variant matter
+                want = proj[0].get("idx")
+                keep = []
+                for d in ds:
+                    v = _def_variant(d)
+                    if v is None or v == want:
+                        keep.append(d)
+                if len(keep) == 1:
+                    ds = keep
             if len(ds) != 1:
                 return ("multi", local, proj)
             kind, bi, si, node = ds[0]
@@ -178,6 +190,24 @@ class DefUse:
                 continue
             return ("rv", node, proj)
         return ("multi", local, proj)
+
+
+def _def_variant(d):
+    """variant index an Option/Result definition certainly builds (None = unknown)"""
+    kind, bi, si, node = d
+    if kind == "stmt":
+        rv = node["rv"]
+        if rv["k"] == "agg" and rv.get("agg") == "adt" and rv.get("variant_idx") is not None:
+            return rv["variant_idx"]
+        return None
+    c = node["callee"]
+    if c.get("name") == "from_residual" and c.get("trait") == "std::ops::FromResidual":
+        ga = c.get("generic_args") or []
+        if ga and ga[0].startswith("std::option::Option<"):
+            return 0
+        if ga and ga[0].startswith("std::result::Result<"):
+            return 1
+    return None
 
 
 def _cancel(proj):
@@ -257,9 +287,21 @@ def expr_place(du, pl, depth=0):
         args = [expr(du, a, depth + 1) for a in t["args"]]
         e = ("call", callee_name(t), tuple(args))
         path = _path_of(r[2])
+        # `x?` : (Try::branch(x) as Continue).0  ==  (x as Some/Ok).0
+        if t["callee"].get("name") == "branch" and t["callee"].get("trait") == "std::ops::Try" and len(args) == 1 \
+                and len(path) >= 2 and path[0] == "as:Continue" and path[1] in (0, "0"):
+            ga = (t["callee"].get("generic_args") or [""])[0]
+            v = "as:Some" if ga.startswith("std::option::Option<") else ("as:Ok" if ga.startswith("std::result::Result<") else None)
+            if v:
+                inner = args[0]
+                npath = (v, 0) + tuple(path[2:])
+                if inner[0] == "path":
+                    return ("path", inner[1], tuple(inner[2]) + npath)
+                return ("path", inner, npath)
         return e if not path else ("path", e, path)
     if r[0] == "rv":
         rv = r[1]["rv"]
+        rvk = rv
         k = rv["k"]
         path = _path_of(r[2])
         if k == "bin":
@@ -273,10 +315,19 @@ def expr_place(du, pl, depth=0):
         elif k == "agg":
             e = ("agg", rv.get("agg"), tuple(expr(du, o, depth + 1) for o in rv["ops"]))
             # projection into an aggregate: pick the component
+            while path:
+                if isinstance(path[0], str) and path[0].startswith("as:") and e[0] == "agg" and rvk.get("agg") == "adt" and path[0][3:] == str(rvk.get("variant")):
+                    path = path[1:]
+                    continue
+                break
             if path and isinstance(path[0], int) and path[0] < len(e[2]) and rv.get("agg") in ("tuple", "array"):
                 e, path = e[2][path[0]], path[1:]
             elif path and rv.get("agg") == "adt" and path[0] in (rv.get("fields") or []):
                 e, path = e[2][rv["fields"].index(path[0])], path[1:]
+            while path and e[0] == "agg" and e[1] in ("tuple", "array") and isinstance(path[0], int) and path[0] < len(e[2]):
+                e, path = e[2][path[0]], path[1:]
+            if path and e[0] == "path":
+                e, path = e[1], tuple(e[2]) + tuple(path)
         elif k == "repeat":
             e = ("repeat", expr(du, rv["x"], depth + 1), rv.get("n"))
         else:
